@@ -47,3 +47,25 @@ package handler
 //@   ensures panicked ==> calls(PresentRecoveredError) == 1 && calls(Write) == 1
 //@   ensures !panicked && !picked ==> calls(Do) == 0 && calls(sendErrorf) == 1
 //@   ensures !panicked && picked ==> calls(Do) == 1
+
+// ---------------------------------------------------------------- C09: errors sent outside a transport
+// The JSON error body is typed: the Content-Type is left alone when a transport already set one and is
+// application/json otherwise; then exactly one status line and one body write.
+//@ trusted (net/http.ResponseWriter).Header() (h)
+//@   ensures h != nil
+//@   pure
+//@ trusted (net/http.Header).Get(key) (s)
+//@   nopanic
+//@   pure
+//@ trusted (net/http.Header).Set(key, value)
+//@   modifies maps
+//@ func sendError [C09]
+//@   requires w != nil
+//@   ghost typed = false
+//@   at! `w.Header().Get("Content-Type")` ghost typed = callres0 != ""
+//@   callsite Set: requires arg0 == "Content-Type" && arg1 == "application/json" && !typed
+//@   at! `w.WriteHeader(code)` requires (typed || calls(Set) == 1) && arg0 == code && calls(Write) == 0
+//@   ensures !panicked ==> calls(WriteHeader) == 1 && calls(Write) == 1
+//@ func sendErrorf [C09]
+//@   requires w != nil
+//@   at! `sendError(w, code, &gqlerror.Error{Message: fmt.Sprintf(format, args...)})` requires arg0 == w && arg1 == code
